@@ -1092,8 +1092,10 @@ def replay(ctx, path):
         c["text"] = inp.get("text", c["text"])
         r = core.run_child(ctx, "c03", [child_input(c)])[0]
         j = judge(c, r)
-        print("replay: %s" % (("%s: %s" % j) if j else "property holds on this input"), "| expr:", " ".join(c["tokens"]))
-        return 1 if j else 0
+        known = bool(j) and any(e.get("tag") == j[0] for e in core.load_known(ctx.pid))
+        print("replay: %s%s" % ("(listed known finding, not a new violation) " if known else "",
+                                ("%s: %s" % j) if j else "property holds on this input"), "| expr:", " ".join(c["tokens"]))
+        return 1 if j and not known else 0
     if inp.get("text"):
         r = core.run_child(ctx, "c03", [{"text": inp["text"], "binding": bool(inp.get("binding"))}])[0]
         same = r == rec.get("observed")
